@@ -281,6 +281,11 @@ func propFields(p *eth2api.VersionedSignedProposal) propAccess {
 	panic("unknown proposal version")
 }
 
+// PropRoot returns the hash tree root of the block message of a raw proposal.
+func PropRoot(p *eth2api.VersionedSignedProposal) ([32]byte, error) {
+	return propFields(p).root()
+}
+
 // PropProposerIndex returns a pointer to the proposer index of a raw proposal.
 func PropProposerIndex(p *eth2api.VersionedSignedProposal) *eth2p0.ValidatorIndex {
 	return propFields(p).propIdx
@@ -533,7 +538,9 @@ func Gens(legacy bool) []Gen {
 			}
 			return nil
 		},
-		VIdx: func(raw any) *eth2p0.ValidatorIndex { return &raw.(*altair.SignedContributionAndProof).Message.AggregatorIndex },
+		VIdx: func(raw any) *eth2p0.ValidatorIndex {
+			return &raw.(*altair.SignedContributionAndProof).Message.AggregatorIndex
+		},
 	})
 	if legacy {
 		gs = append(gs, Gen{
